@@ -4,7 +4,7 @@ import Dasp.Model.Signal
     definitions `Props/C04.lean` / `Props/C05.lean` are about) on one whole case per line.
     Core Lean only.
 
-    <stream> <kind> <tree> | op …          kind: d1 = f64 mono, g2 = [f32;2], i2 = [i32;2], i3 = [i32;3], s2 = [i16;2], w2 = [u16;2]
+    <stream> <kind> <tree> | op …          kind: d1 = f64 mono, g2 = [f32;2], i2 = [i32;2], i3 = [i32;3], s2 = [i16;2], w2 = [u16;2], x2 = [u32;2], l2 = [i64;2], y2 = [u64;2]
 
     tree (prefix notation; F = frame `a,b`; integer kinds: samples/offsets/thresholds decimal,
     amplitudes as numerators p of p/4; d1 / g2: everything as 16- / 8-digit hex `to_bits`):
@@ -61,23 +61,22 @@ def intKind (n : Nat) (lo hi : Int) : Kind Int where
     through the signed twin (`conv::u16::to_i16` = v − 32768 and back), so offsets/thresholds are
     i16 amounts and every operation acts on the amplitude v − 32768 -/
 
-def u16E : Int := 32768
-
-def u16Ops : Ops Int where
-  eq := [u16E, u16E]
-  addAmp := List.zipWith (· + ·)                                   -- sample + i16 amount
-  mulAmp := List.zipWith fun v p => u16E + scaleQ (-32768) 32767 (v - u16E) p
-  scaleAmp f k := f.map fun v => u16E + scaleQ (-32768) 32767 (v - u16E) k
+/-- unsigned kind with equilibrium `e` (= 2^(bits-1)); `lo`/`hi` = range of the signed twin -/
+def uOps (e lo hi : Int) : Ops Int where
+  eq := [e, e]
+  addAmp := List.zipWith (· + ·)                                   -- sample + signed amount
+  mulAmp := List.zipWith fun v p => e + scaleQ lo hi (v - e) p
+  scaleAmp f k := f.map fun v => e + scaleQ lo hi (v - e) k
   offsetAmp f k := f.map (· + k)
-  clipSample t v := u16E + clipInt t (v - u16E)
+  clipSample t v := e + clipInt t (v - e)
 
-def u16Kind : Kind Int where
-  ops := u16Ops
+def uKind (e lo hi : Int) : Kind Int where
+  ops := uOps e lo hi
   parse := String.toInt?
   shw := toString
-  add x y := x + y - u16E
-  sub x y := x - y + u16E
-  neg x := 2 * u16E - x
+  add x y := x + y - e
+  sub x y := x - y + e
+  neg x := 2 * e - x
   shift := (· + ·)
   lin a i b := a + Int.ofNat i * b
 
@@ -321,7 +320,10 @@ def sigLine (args : List String) : String :=
   | "i2" :: rest => runCase (intKind 2 i32lo i32hi) 2 rest
   | "i3" :: rest => runCase (intKind 3 i32lo i32hi) 3 rest
   | "s2" :: rest => runCase (intKind 2 (-32768) 32767) 2 rest
-  | "w2" :: rest => runCase u16Kind 2 rest
+  | "w2" :: rest => runCase (uKind 32768 (-32768) 32767) 2 rest
+  | "x2" :: rest => runCase (uKind 2147483648 i32lo i32hi) 2 rest
+  | "l2" :: rest => runCase (intKind 2 (-9223372036854775808) 9223372036854775807) 2 rest
+  | "y2" :: rest => runCase (uKind 9223372036854775808 (-9223372036854775808) 9223372036854775807) 2 rest
   | "g2" :: rest => runCase f32Kind 2 rest
   | _ => "bad-op"
 
